@@ -10,8 +10,12 @@ func (c *Conversation) generateNewDHKeyPair() error {
 }
 
 func (c *Conversation) akeHasFinished() error {
+	// every key pair of a session that is being replaced is retired by that:
+	// its MAC keys still have to be disclosed
+	toReveal := c.keys.retireAllMACKeys()
 	c.keys.wipe()
 	c.keys = c.ake.keys
+	c.keys.oldMACKeys = append(c.keys.oldMACKeys, toReveal...)
 	c.ake.wipe(false)
 
 	previousMsgState := c.msgState
